@@ -328,6 +328,14 @@ def default_case(case):
     for name in (target, other):
         opt.enable_fit(name)
         expect[name] = [PARAMS[name][0], list(PARAMS[name][1])]
+    pre = bool(case.get('precompile'))
+    if pre:
+        # a user prior on the other parameter and a first compilation with the documented defaults; the
+        # default prior of the target must nevertheless follow the settings current at the LAST compilation
+        from taurex.core.priors import Uniform
+        ob = PARAMS[other][1]
+        opt.set_prior(other, Uniform(bounds=[ob[0] + 0.25 * (ob[1] - ob[0]), ob[0] + 0.5 * (ob[1] - ob[0])]))
+        opt.compile_params()
     if case['mode'] is not None:
         opt.set_mode(target, case['mode'])
         expect[target][0] = case['mode'].lower()
@@ -338,20 +346,26 @@ def default_case(case):
     names = [p[0] for p in opt.fitting_parameters]
     r.check(sorted(names) == sorted([target, other]) and len(opt.fitting_priors) == 2, 'default-compiled',
             'default/compiled-set', names=names)
-    tagm = '%s/%s' % (expect[target][0], 'ordered' if expect[target][1][0] < expect[target][1][1] else 'reversed')
+    tagm = '%s/%s%s' % (expect[target][0], 'ordered' if expect[target][1][0] < expect[target][1][1] else 'reversed',
+                        '/recompiled-next-to-user-prior' if pre else '')
     cube = []
     for name, prior in zip(names, opt.fitting_priors):
+        cube.append(0.25)
+        if pre and name == other:
+            r.check(type(prior).__name__ == 'Uniform', 'user-prior-kept', 'default/user-prior-lost')
+            continue
         mode, bounds = expect[name]
         want_cls, rp = ref.default_prior(mode, bounds)
         what = tagm if name == target else 'untouched-' + mode
         r.check(type(prior).__name__ == want_cls, 'default-class', 'default/class/%s' % what,
                 name=name, got=type(prior).__name__, want=want_cls)
         check_prior(r, prior, rp, 'default/' + what)
-        cube.append(0.25)
     # the value that reaches the model: uniform quantile 0.25 in the declared space, 10** in log mode
     vals = [float(p.sample(c)) for p, c in zip(opt.fitting_priors, cube)]
     opt.update_model(vals)
     for name, param in zip(names, opt.fitting_parameters):
+        if pre and name == other:
+            continue
         mode, bounds = expect[name]
         _, rp = ref.default_prior(mode, bounds)
         x, _ = rp.sample(0.25)
@@ -480,6 +494,8 @@ def explore(ctx):
                 if eff == 'log' and b is None and min(PARAMS[param][1]) <= 0:
                     continue        # log10 of a non-positive default bound: outside the statement
                 dflt.append({'param': param, 'other': other, 'mode': mode, 'bounds': b})
+                if mode is not None or b is not None:
+                    dflt.append({'param': param, 'other': other, 'mode': mode, 'bounds': b, 'precompile': True})
     ctx.run_cases('default_case', dflt, phase='default')
 
     ctx.bounds.update(u_lattice=len(U), direct=len(direct), lin=len(lin), text=len(text), positional=len(pos),
